@@ -1,6 +1,7 @@
 """C18 — measurements and queries (structural clause): derived data (bounding box, BVH) is refreshed after
 every geometry mutation before an Impl escapes; epsilon is derived from a fresh bounding box."""
 import escape
+import contracts
 
 BITS = 'BK'
 
@@ -14,17 +15,29 @@ def main(chk, tier):
              'every structural halfedge mutation is followed on all paths by CalculateBBox / SortGeometry / '
              'collider_.UpdateBoxes / collider_.Transform before the object is wrapped or returned; SetEpsilon is '
              'reached only with a fresh bounding box')
+    chk.rule('C18.2', 'the freshness effects the typestate attributes to its primitives hold in their bodies: on every '
+             'normal path SortGeometry assigns collider_ from a constructed Collider and bBox_ from it, CalculateBBox '
+             'assigns both corners of bBox_ from vertPos_, MakeEmpty resets both (must-pass-through dataflow; '
+             'cancel and emptiness early-outs excepted)')
+    chk.rule('C18.3', 'every mutable data member of Manifold::Impl (a cache of derived data, writable through the shared '
+             'const Impl) is reset between any geometry mutation and the next escape (dynamic typestate bit per member; '
+             'today Impl has none, the self-test mutant adds one)')
     for cfgname in configs:
         db = D.load(cfgname)
         chk.configs.append(cfgname)
         chk.units = len(db.units)
         chk.functions_analysed += len(db.functions)
-        e = escape.Escape(db, tab, BITS)
+        e = escape.Escape(db, tab, BITS, caches=True)
         res, reqv = e.run()
-        escape.report(chk, e, res, reqv, 'C18.1', cfgname, BITS)
+        escape.report(chk, e, res, reqv, 'C18.1', cfgname, BITS + ''.join(sorted(e.sbits)))
+        chk.count('c18.3.mutable_cache_members', len(e.cache))
+        for m, sym in sorted(e.cache.items()):
+            chk.obligation(True, {'mutable Impl member tracked as cache': m, 'bit': sym})
+        contracts.verify(chk, db, cfgname, 'C18.2', BITS)
     n = len(configs)
     chk.floor('c18.1.escape_points', 35 * n)
     chk.floor('c18.1.summarised_methods', 60 * n)
+    chk.floor('c18.2.contract_clauses', 5 * n)
     return chk.finish(
         'Freshness typestate (bits B = bounding box stale, K = collider stale) over every function that creates or '
         'finishes a Manifold::Impl, with interprocedural gen/kill summaries of all Impl methods. BoundingBox, MinGap, '
